@@ -98,7 +98,7 @@ var c11otherN int
 
 // parsed gives the same matrix as it comes out of Parse, from a JSON document; false when the matrix has no
 // spelling as a document (a nil value list, a nil adjustment)
-func (m c11matrix) parsed() (*pipeline.Matrix, bool) {
+func (m c11matrix) parsed(bare bool) (*pipeline.Matrix, bool) {
 	if m.nilp {
 		return nil, false
 	}
@@ -138,7 +138,12 @@ func (m c11matrix) parsed() (*pipeline.Matrix, bool) {
 	if adjs != nil {
 		doc["adjustments"] = adjs
 	}
-	text, err := json.Marshal(map[string]any{"steps": []any{map[string]any{"command": "echo", "matrix": doc}}})
+	var mdoc any = doc
+	if vs, only := m.setup[""]; bare && only && len(m.setup) == 1 && adjs == nil {
+		mdoc = vs // the shorthand: the matrix written as the bare list of values
+		stat("C11", "matrix-as-bare-list")
+	}
+	text, err := json.Marshal(map[string]any{"steps": []any{map[string]any{"command": "echo", "matrix": mdoc}}})
 	if err != nil {
 		return nil, false
 	}
@@ -215,6 +220,19 @@ func c11accepts(m c11matrix, p map[string]string) bool {
 }
 
 func c11one(m c11matrix, p map[string]string) {
+	c11oneVia(m, p, 0)
+	// every third case also with the matrix taken from a parsed document, and every matrix that has the bare-list
+	// spelling (one anonymous dimension, no adjustments) also from that
+	c11caseN++
+	if c11caseN%3 == 0 {
+		c11oneVia(m, p, 1)
+	}
+	if vs, only := m.setup[""]; !m.nilp && only && vs != nil && len(m.setup) == 1 && len(m.adjs) == 0 {
+		c11oneVia(m, p, 2)
+	}
+}
+
+func c11oneVia(m c11matrix, p map[string]string, via int) {
 	pl := sx.List{}
 	for _, d := range sortedKeys(p) {
 		pl = append(pl, sx.L(sx.A(d), sx.A(p[d])))
@@ -225,13 +243,13 @@ func c11one(m c11matrix, p map[string]string) {
 		Env:    map[string]string{"K": "v"},
 		Matrix: m.real(),
 	}
-	// every third case takes its matrix from a parsed document instead
-	c11caseN++
-	if c11caseN%3 == 0 {
-		if pm, ok := m.parsed(); ok {
-			step.Matrix = pm
-			stat("C11", "matrix-from-document")
+	if via > 0 {
+		pm, ok := m.parsed(via == 2)
+		if !ok {
+			return
 		}
+		step.Matrix = pm
+		stat("C11", "matrix-from-document")
 	}
 	// make every dimension of p interpolatable so that acceptance is decided by validation alone
 	step.Command = "echo"
